@@ -499,6 +499,15 @@ fn next_peer_kind(state: &State) -> PeerKind {
     }
 }
 
+/// Verification hook: crate-visible entry to the private `decode_and_verify_responses`.
+#[cfg(eigerco_lumina_verif)]
+pub(crate) async fn verif_decode_and_verify_responses(
+    request: &HeaderRequest,
+    responses: &[HeaderResponse],
+) -> Result<Vec<ExtendedHeader>, HeaderExError> {
+    decode_and_verify_responses(request, responses).await
+}
+
 async fn decode_and_verify_responses(
     request: &HeaderRequest,
     responses: &[HeaderResponse],
